@@ -19,8 +19,12 @@ for d in sorted(glob.glob(os.path.join(VERIF, "harmless", "C*-*"))):
         else:
             verdicts.append("%s: ALARM (exit %s)" % (c, v.get("exit")))
     after = m.get("after_correction") or ""
-    rr = m.get("rerun_after_round8") or {}
-    rr_txt = "; ".join("%s %s" % (k, v) for k, v in rr.items() if k not in ("lines", "tail"))
+    rr_txt = ""
+    for key in ("rerun_after_round8", "rerun_after_round9"):
+        rr = m.get(key) or {}
+        t = "; ".join("%s %s" % (k, v) for k, v in rr.items() if k not in ("lines", "tail"))
+        if t:
+            rr_txt += ("; " if rr_txt else "") + "%s (%s)" % (t, key.replace("rerun_after_", "after "))
     rows.append("| %s | %s | %s | %s | %s | %s |" % (os.path.basename(d), (m.get("kind") or "").replace("|", "/"), (m.get("summary") or "").replace("|", "/").replace("\n", " ")[:330],
                                           "; ".join(verdicts), after, rr_txt))
 txt = """# Behaviour-preserving refactors (false-alarm drill)
@@ -30,9 +34,9 @@ anchored in and a scratch worktree) wrote as a *harmless* rewrite of that code: 
 `equiv.py` (its dump is byte-identical with and without the patch; confirmed by me together with the pinned suite: 42 pass, same 10
 fail) and `meta.json` with the verdicts of the quick checks run against it (`tools/harmless_eval.py`).  Expected verdict: quiet.
 The column "first run" is the verdict before anything was corrected; "after" is filled where the machinery was corrected (DESIGN.md §7); the last
-column is the verdict of the property's own quick check re-run on every patch after the checks were strengthened in mutation round 8.
+column is the verdict of the property's own quick check re-run on every patch after the checks were strengthened in mutation rounds 8 and 9.
 
-| change | kind | what was rewritten | first run | after | own check re-run after the round-8 strengthening |
+| change | kind | what was rewritten | first run | after | own check re-run after the strengthening of mutation rounds 8 and 9 |
 |---|---|---|---|---|---|
 """ + "\n".join(rows) + "\n"
 open(os.path.join(VERIF, "harmless", "README.md"), "w").write(txt)
